@@ -48,7 +48,7 @@ VarTids(s) == {t \in DOMAIN s.keys : s.keys[t].ty \in {"max", "min"}}
 
 Next ==
   /\ tm.n < MaxOps /\ ~tm.panicked
-  /\ \/ \E kind \in Kinds, dd \in AddOffsets, sign \in {1, -1} :
+  /\ \/ \E kind \in Kinds \ {"dflt"}, dd \in AddOffsets, sign \in {1, -1} :
           /\ tm.nt < MaxTimers
           /\ LET inst == IF sign = 1 THEN InstPlus(tm.cnow, dd) ELSE InstMinus(tm.cnow, dd)
              IN Commit(DoAdd(tm, kind, inst), [op |-> "tadd", tid |-> tm.nt + 1, kind |-> kind, t |-> inst, item |-> tm.nid])
@@ -56,6 +56,16 @@ Next ==
           LET inst == IF sign = 1 THEN InstPlus(tm.cnow, dd) ELSE InstMinus(tm.cnow, dd)
           IN Commit(DoUpd(tm, tid, inst), [op |-> "tupd", tid |-> tid, t |-> inst])
      \/ \E tid \in DOMAIN tm.keys : Commit(DoDel(tm, tid), [op |-> "tdel", tid |-> tid])
+     \* Default keys (slot 0, generation 0) never name a timer
+     \/ \E kind \in Kinds, dd \in AddOffsets :
+          /\ "dflt" \in Kinds
+          /\ kind # "dflt"
+          /\ LET inst == InstPlus(tm.cnow, dd) IN
+             IF kind = "fixed"
+             THEN Commit(Emit(Emit(tm, [e |-> "tdelb", tid |-> -1]), [e |-> "tdel", tid |-> -1, kind |-> "fixed", res |-> FALSE]),
+                         [op |-> "tdel", tid |-> -1, kind |-> "fixed"])
+             ELSE Commit(Emit(tm, [e |-> "tupd", tid |-> -1, kind |-> kind, t |-> inst, res |-> FALSE, now |-> tm.cnow]),
+                         [op |-> "tupd", tid |-> -1, kind |-> kind, t |-> inst])
      \/ \E tid \in VarTids(tm) : Commit(DoAct(tm, tid), [op |-> "tact", tid |-> tid])
      \/ \E dd \in RunOffsets, sign \in {1, -1} :
           LET inst == IF sign = 1 THEN InstPlus(tm.cnow, dd) ELSE InstMinus(tm.cnow, dd)
